@@ -267,6 +267,58 @@ DSIntoIter(D, n, end, res) ==
 DSExtend(D, cap, items, res) == DExtendG(D, cap, items, res, FALSE)
 DSFromIter(cap, items, res) == DFromIterG(cap, items, res, FALSE)
 
+\* ---------------------------------------------------------------- clone --
+\* a clone holds the same entries, made of exactly one clone per key and value object
+\* (tag 20 + source), and the two copies are independent afterwards
+DCloneSet(D) == {[e EXCEPT !.kt = 20 + e.kt, !.vt = IF e.vt = 0 THEN 0 ELSE 20 + e.vt] : e \in D}
+DSub(D, cap, op) ==      \* [ret, post, dk, dv] of the follow-up operation, ideal semantics
+  LET unit == [vt |-> 0, v |-> 0] IN
+  CASE op.name = "none" -> [ret |-> <<"unit">>, post |-> D, dk |-> {}, dv |-> {}]
+    [] op.name \in {"insert", "s_insert"} ->
+         LET v == IF op.name = "insert" THEN op.v ELSE unit
+             k == op.k IN
+         IF DHas(D, k.c) THEN LET e == DAt(D, k.c) IN
+              [ret |-> IF op.name = "insert" THEN DRVal(e) ELSE <<"b", FALSE>>,
+               post |-> (D \ {e}) \cup {DSetVal(e, v)}, dk |-> {k.kt}, dv |-> {}]
+         ELSE IF Cardinality(D) < cap THEN
+              [ret |-> IF op.name = "insert" THEN <<"none">> ELSE <<"b", TRUE>>, post |-> D \cup {DE(k, v)}, dk |-> {}, dv |-> {}]
+         ELSE [ret |-> <<"panic">>, post |-> D, dk |-> {k.kt}, dv |-> IF op.name = "insert" THEN {v.vt} ELSE {}]
+    [] op.name \in {"remove", "s_remove"} ->
+         IF DHas(D, op.c) THEN LET e == DAt(D, op.c) IN
+              [ret |-> IF op.name = "remove" THEN DRVal(e) ELSE <<"b", TRUE>>, post |-> D \ {e}, dk |-> {e.kt}, dv |-> {}]
+         ELSE [ret |-> IF op.name = "remove" THEN <<"none">> ELSE <<"b", FALSE>>, post |-> D, dk |-> {}, dv |-> {}]
+    [] op.name = "get_mut" ->
+         IF DHas(D, op.c) THEN LET e == DAt(D, op.c) IN
+              [ret |-> DRVal(e), post |-> (D \ {e}) \cup {DWrite(e, op.w)}, dk |-> {}, dv |-> {}]
+         ELSE [ret |-> <<"none">>, post |-> D, dk |-> {}, dv |-> {}]
+    [] op.name \in {"clear", "s_clear"} ->
+         [ret |-> <<"unit">>, post |-> {}, dk |-> DKT(D), dv |-> IF op.name = "clear" THEN DVT(D) ELSE {}]
+
+DClone(D, cap, then, on, survivor, res) ==
+  LET C == DCloneSet(D)
+      r == DSub(IF on = "orig" THEN D ELSE C, cap, then)
+      origPost == IF on = "orig" THEN r.post ELSE D
+      copyPost == IF on = "copy" THEN r.post ELSE C
+      keep == IF survivor = "orig" THEN origPost ELSE copyPost
+      gone == IF survivor = "orig" THEN copyPost ELSE origPost
+  IN /\ DNoRepeat(res.ret.cl) /\ DRange(res.ret.cl) = {DJEnt(e) : e \in C}
+     /\ Is(res.ret.then, r.ret)
+     /\ DNoRepeat(res.ret.other) /\ DRange(res.ret.other) = {DJEnt(e) : e \in (IF on = "orig" THEN C ELSE D)}
+     /\ res.post = keep
+     /\ res.dk = r.dk \cup DKT(gone) /\ res.dv = r.dv \cup (DVT(gone) \ {0})
+     /\ res.lk = {} /\ res.lv = {}
+
+\* ---------------------------------------------------------------- serde --
+\* exactly len() entries are announced and emitted; decoding into a container of
+\* sufficient capacity gives one equal to the original
+DSerde(D, m, res) ==
+  /\ Same(res, D)
+  /\ res.ret.announced = Cardinality(D) /\ res.ret.emitted = Cardinality(D)
+  /\ m >= Cardinality(D) =>
+        /\ res.ret.ok /\ res.ret.eq
+        /\ {<<x[2], x[5]>> : x \in DRange(res.ret.de)} = {<<e.c, e.v>> : e \in D}
+        /\ Len(res.ret.de) = Cardinality(D)
+
 \* ------------------------------------------------------------ dispatch --
 DictAllows(D, cap, op, res) ==
   CASE op.name = "insert"           -> DInsert(D, cap, op.k, op.v, res)
@@ -306,5 +358,7 @@ DictAllows(D, cap, op, res) ==
     [] op.name = "s_extend"         -> DSExtend(D, cap, op.items, res)
     [] op.name \in {"s_from_iter", "s_from_array"} -> DSFromIter(cap, op.items, res)
     [] op.name = "s_fmt"            -> DFmt(D, res)
+    [] op.name = "clone"            -> DClone(D, cap, op.then, op.on, op.survivor, res)
+    [] op.name = "serde"            -> DSerde(D, op.m, res)
 
 =============================================================================
